@@ -65,7 +65,14 @@ def r81(ctx, wr):
             and any(isinstance(x, ast.With) for x in ast.walk(s))]
     ctx.ob('R8.1', 'writer.partition_on_columns:every-group-visited-once', len(loop) == 1 and norm(loop[0].target) == '(key, group)', '', wr.loc(f))
     # key texts that cannot be one directory level are refused before any part is written
-    chk = [s for s in iter_child_stmts(f.body) if isinstance(s, ast.Raise) and 'directory name' in norm(s)]
+    chk = [s for s in iter_child_stmts(f.body) if isinstance(s, ast.Raise) and 'directory name' in norm(s) and 'Partition value' in norm(s)]
+    # (hive) a column name that holds the separator between name and value, or a path separator, is refused as well
+    nchk = [s for s in iter_child_stmts(f.body) if isinstance(s, ast.Raise) and 'directory name' in norm(s) and 'Partition value' not in norm(s)]
+    ntests = [norm(e.test) for s_ in nchk for e, fld in cfg.enclosing_tests(s_) if isinstance(e, ast.If)]
+    ctx.ob('R8.1', 'writer.partition_on_columns:separator-characters-in-column-names-refused-before-writing',
+           len(nchk) == 1 and any("'=' in" in t for t in ntests) and any("'/' in" in t for t in ntests) and 'with_field' in ntests
+           and bool(op) and not cfg.exists_path(cfg.node_of(op[0]), cfg.node_of(nchk[0])),
+           'a partition column called a=b gives directories a=b=1, read back as a plain (drill) level: %s' % ntests, wr.loc(f))
     okc = len(chk) == 1 and bool(loop) and all(not cfg.exists_path(cfg.node_of(op[0]), cfg.node_of(chk[0])) for _ in [0]) and \
         cfg.exists_path(cfg.node_of(chk[0]), cfg.node_of(op[0])) is False
     tests = [norm(e.test) for e, fld in cfg.enclosing_tests(chk[0]) if isinstance(e, ast.If)] if chk else []
@@ -136,9 +143,29 @@ def r83(ctx, wr, api, ut, core):
     pt = api.func('partitions')
     ctx.ob('R8.3', 'api.partitions:values-split-on-slash-or-equals', "re.split('/|=', f_path)[1::2]" in src(pt), '', api.loc(pt))
     ex = ut.func('ex_from_sep')
-    ctx.ob('R8.3', 'util.ex_from_sep:key=value-regex', '([a-zA-Z_0-9]+)=([^' in src(ex), '', ut.loc(ex))
-    ctx.note('R8.3 note: the regex of ex_from_sep restricts keys to [a-zA-Z_0-9]+ - a narrower parser used only by '
-             'filter_out_cats; a key outside that alphabet makes partition pruning inert (sound), not wrong')
+    # the pattern (a constant, instantiated for '/') finds the same name=value pairs as the parsers that split the path -
+    # also for names that are not identifiers: a condition on a key the pattern misses is never applied at all (row-level
+    # evaluation leaves partition conditions to the pruning step)
+    import re as _re
+    pats = []
+    for c in ast.walk(ex):
+        if isinstance(c, ast.Call) and isinstance(c.func, ast.Attribute) and c.func.attr == 'format' and isinstance(c.func.value, ast.Constant) \
+                and isinstance(c.func.value.value, str):
+            pats.append(c.func.value.value)
+    okp, dp = bool(pats), []
+    samples = {'a=1/my-p=x y/part.0.parquet': [('a', '1'), ('my-p', 'x y')], 'year=2020/data/part.0.parquet': [('year', '2020')],
+               'plain/part.0.parquet': [], 'k.1=2.5/p.parquet': [('k.1', '2.5')]}
+    for pat in pats:
+        try:
+            rx = _re.compile(pat.format('/'))
+        except Exception as e_:
+            continue     # (the arm for separators that need escaping; '/' does not take it)
+        for text, want in samples.items():
+            got = [tuple(x) for x in rx.findall(text)]
+            if got != want:
+                okp = False
+                dp.append('%r on %r finds %r, the split parsers find %r' % (pat, text, got, want))
+    ctx.ob('R8.3', 'util.ex_from_sep:pattern-finds-the-pairs-the-split-parsers-find', okp, '; '.join(dp[:2]), ut.loc(ex))
     # val_to_num on path values passes the partition metadata of the key
     sites = []
     for m, q in ((api, '_path_to_cats'), (core, 'read_row_group'), (api, 'filter_out_cats')):
@@ -223,6 +250,18 @@ def r86(ctx, ut):
                len(a) == 1 and isinstance(a[0], ast.Name) and a[0].id == f.args.args[0].arg,
                '`%s`: an intermediate conversion (e.g. through float) loses integers beyond 2**53 and text forms the '
                'target type accepts' % norm(r), ut.loc(r))
+    # the dispatcher hands the typed value on as it is: a conversion in between (`.item()`, int(), str()) changes the kind
+    # of some recorded types (a datetime64[ns] scalar becomes an integer count)
+    h = ut.func('val_to_num')
+    rets_h = [r for r in ast.walk(h) if isinstance(r, ast.Return)]
+    typed = [r for r in rets_h if any(isinstance(c, ast.Call) and callee(c) == 'val_from_meta' for c in ast.walk(r))]
+    defs_h = {norm(a_.targets[0]): a_.value for a_ in ast.walk(h) if isinstance(a_, ast.Assign) and len(a_.targets) == 1}
+    derived = [r for r in rets_h if r not in typed and any(isinstance(x, ast.Name) and isinstance(defs_h.get(x.id), ast.Call)
+                                                            and callee(defs_h[x.id]) == 'val_from_meta' for x in ast.walk(r))]
+    ok_h = bool(typed or derived) and all(isinstance(r.value, ast.Call) and callee(r.value) == 'val_from_meta' for r in typed) and \
+        all(isinstance(r.value, ast.Name) for r in derived)
+    ctx.ob('R8.6', 'util.val_to_num:typed-value-handed-on-unconverted', ok_h,
+           'returns %s' % [norm(r)[:60] for r in typed + derived], ut.loc(h))
     g = ut.func('_val_to_num')
     tries = [st for st in g.body if isinstance(st, ast.Try)]
     got = []
